@@ -115,6 +115,25 @@ class NPNum:
             out[idx] = ite(c[idx], a[idx], b[idx])
         return out
 
+    def isclose(self, a, b, rtol=1e-05, atol=1e-08, equal_nan=False):
+        """numpy.isclose by its definition: |a - b| <= atol + rtol * |b| (elementwise, as symbolic conditions)"""
+        aa = _np.asarray(a, dtype=object)
+        bb = _np.asarray(b, dtype=object)
+        aa, bb = _np.broadcast_arrays(aa, bb)
+        out = _np.empty(aa.shape, dtype=object)
+        for idx in _np.ndindex(aa.shape):
+            x, y = aa[idx], bb[idx]
+            d = x - y
+            out[idx] = (abs(d) if not isinstance(d, Sym) else abs(d)) <= (K(symx.rationalise(float(atol))) + K(symx.rationalise(float(rtol))) * abs(y))
+        return out if out.shape else out[()]
+
+    def allclose(self, a, b, rtol=1e-05, atol=1e-08, equal_nan=False):
+        c = self.isclose(a, b, rtol, atol)
+        res = True
+        for v in _np.ravel(_np.asarray(c, dtype=object)):
+            res = res and bool(v)
+        return res
+
     def mod(self, a, b):
         return a % b
 
